@@ -18,6 +18,7 @@ Decides (structurally, on every path of the generator - not per position):
         every history and are re-checked here.
 Does NOT decide: equality of the generated set with the FIDE set in every reachable position.
 """
+import re
 from . import core, hir
 from .common import discr_map, loop_binders, plain_guards
 
@@ -33,6 +34,14 @@ KNIGHT = {(1, 2), (2, 1), (-1, -2), (-2, -1), (1, -2), (-2, 1), (-1, 2), (2, -1)
 KING = {(dr, dc) for dr in (-1, 0, 1) for dc in (-1, 0, 1) if (dr, dc) != (0, 0)}
 ORTH = {(0, 1), (0, -1), (1, 0), (-1, 0)}
 DIAG = {(1, 1), (1, -1), (-1, 1), (-1, -1)}
+_SUFFIX = re.compile(r"'u?\d+")
+
+
+def fmtn(t, maxlen=400):
+    """hir.fmt with the suffixes that helper expansion / loop unrolling give to colliding local names removed"""
+    return _SUFFIX.sub("", hir.fmt(t, maxlen))
+
+
 GEN = "chess::piece::Piece::get_moves"
 PAWN = "chess::piece::Piece::get_pawn_moves"
 KINGF = "chess::piece::Piece::get_king_moves"
@@ -92,7 +101,7 @@ def tuple_lits(arr):
 def for_loops(fn, F):
     """[(iterator normal form, bound names, loop-body node (the Some arm), match node)]"""
     env = hir.Env(fn["hir"], F)
-    sym = hir.Sym(env, F)
+    sym = hir.Sym(env, F, depth=30)
     out = []
     for n, anc in hir.walk(fn["hir"]["body"]):
         if n.get("k") == "Match" and n.get("src") == "ForLoopDesugar":
@@ -190,14 +199,14 @@ def g12(ctx, F, D):
         good = False
         for r in rets:
             g = hir.guards_of(r, body, sym) or []
-            txt = [hir.fmt(x[1], 300) for x in g if x[0] == "if" and x[2] is True]
+            txt = [fmtn(x[1], 300) for x in g if x[0] == "if" and x[2] is True]
             add_ok = any(t.startswith("let(v1::Some, Position::add(position, %s)" % names[0]) for t in txt)
             enemy = any("piece.owner != player" in t for t in txt)
             good = add_ok and enemy and sym(r["e"]) == ("lit", True)
         ctx.check("C01.G2" if len(tuple_lits(it)) == 8 and set(tuple_lits(it)) == KING else "C01.G1", "detector:step-loop-tests-enemy-on-position+delta:%d" % n,
                   good, fn=DET, file=fn["file"], line=hir.line(m),
                   what="a step loop of the detector must test position + delta for an enemy piece and report an attack",
-                  found=[hir.fmt(x[1], 160) for r in rets for x in (hir.guards_of(r, body, sym) or []) if x[0] == "if"][:4])
+                  found=[fmtn(x[1], 160) for r in rets for x in (hir.guards_of(r, body, sym) or []) if x[0] == "if"][:4])
     ctx.floor("C01.G1", "step-table loops in the detector", n, 2)
 
 
@@ -205,7 +214,7 @@ def g3(ctx, F, D):
     # generator: rays per arm of `match self.piece_type`
     fn = F.fn(GEN)
     env = hir.Env(fn["hir"], F)
-    sym = hir.Sym(env, F)
+    sym = hir.Sym(env, F, depth=30)
     arms = {}
     for n, anc in hir.walk(fn["hir"]["body"]):
         if n.get("k") == "Match" and n.get("src") == "Normal" and sym(n["e"]) == ("field", ("var", "self"), "piece_type"):
@@ -276,7 +285,7 @@ def ray_body_generator(ctx, fn, lb, m, names, sym, kind):
     edge = occupied = False
     for b in breaks:
         g = [x for x in (hir.guards_of(b, lb, sym) or []) if x[0] == "if"]
-        t = [(hir.fmt(x[1], 200), x[2]) for x in g]
+        t = [(fmtn(x[1], 200), x[2]) for x in g]
         if len(t) == 1 and t[0][0].startswith("let(v1::Some, Position::add(pos, %s)" % d) and t[0][1] is False:
             edge = True
         if len(t) == 2 and t[0][1] is True and t[1][0].startswith("let(v1::Some, Game::get_position(game, new_pos)") and t[1][1] is True:
@@ -284,7 +293,7 @@ def ray_body_generator(ctx, fn, lb, m, names, sym, kind):
     capture = quiet = False
     for p in pushes:
         g = [x for x in (hir.guards_of(p, lb, sym) or []) if x[0] == "if"]
-        t = [(hir.fmt(x[1], 200), x[2]) for x in g]
+        t = [(fmtn(x[1], 200), x[2]) for x in g]
         mv = sym(p["args"][0])
         mv_ok = mv[0] == "struct" and mv[1] == MV + "Normal" and dict(mv[2]).get("start") == ("var", "pos") and \
             dict(mv[2]).get("end") == ("var", "new_pos") and dict(mv[2]).get("piece") == ("var", "self") and \
@@ -308,13 +317,13 @@ def ray_body_detector(ctx, det, lb, m, names, sym, direction):
     breaks = [n for n, _ in hir.walk(lb) if n.get("k") == "Break"]
     edge = blocker = hit = False
     for b in breaks:
-        t = [(hir.fmt(x[1], 260), x[2]) for x in (hir.guards_of(b, lb, sym) or []) if x[0] == "if"]
+        t = [(fmtn(x[1], 260), x[2]) for x in (hir.guards_of(b, lb, sym) or []) if x[0] == "if"]
         if len(t) == 1 and t[0][0].startswith("let(v1::Some, Position::add(position, %s)" % d) and t[0][1] is False:
             edge = True
         if len(t) == 3 and t[1][0].startswith("let(v1::Some, Game::get_position(self, new_pos)") and t[1][1] is True and t[2][1] is False:
             blocker = True
     for r in rets:
-        t = [(hir.fmt(x[1], 260), x[2]) for x in (hir.guards_of(r, lb, sym) or []) if x[0] == "if"]
+        t = [(fmtn(x[1], 260), x[2]) for x in (hir.guards_of(r, lb, sym) or []) if x[0] == "if"]
         if ("(piece.owner != player)", True) in t and sym(r["e"]) == ("lit", True):
             hit = True
     ok = edge and blocker and hit and len(rets) == 1 and len(breaks) == 2
@@ -329,7 +338,7 @@ def ray_body_detector(ctx, det, lb, m, names, sym, direction):
 
 def pushes_of(fn, F):
     env = hir.Env(fn["hir"], F)
-    sym = hir.Sym(env, F)
+    sym = hir.Sym(env, F, depth=30)
     body = fn["hir"]["body"]
     out = []
     for n, anc in hir.walk(body):
@@ -358,9 +367,9 @@ def atoms(guards, owner, D):
                 f, pol = f[1], (not pol)
             if f == ("lit", True) and pol is True:
                 continue
-            out.append(("%s" if pol else "NOT %s") % hir.fmt(f, 400))
+            out.append(("%s" if pol else "NOT %s") % fmtn(f, 400))
         elif g[0] == "arm" and g[1][0] == "call" and str(g[1][1]).endswith("IntoIterator::into_iter"):
-            out.append("FOR %s" % hir.fmt(fold_owner(g[1][2][0], owner, D), 300))
+            out.append("FOR %s" % fmtn(fold_owner(g[1][2][0], owner, D), 300))
     return out
 
 
@@ -397,7 +406,7 @@ def g4(ctx, F, D):
         }
         got = {}
         for n, mv, guards in ps:
-            m = hir.fmt(fold_owner(mv, owner, D), 400)
+            m = fmtn(fold_owner(mv, owner, D), 400)
             got[m] = (set(atoms(guards, owner, D)), n)
         for name, (mtxt, conds) in exp.items():
             alt = mtxt
@@ -415,7 +424,7 @@ def g4(ctx, F, D):
     # G4b: detector pawn squares = negated capture steps of the opponent
     det = F.fn(DET)
     env = hir.Env(det["hir"], F)
-    dsym = hir.Sym(env, F)
+    dsym = hir.Sym(env, F, depth=30)
     looked = {}
     for n, anc in hir.walk(det["hir"]["body"]):
         if n.get("k") == "Match" and n.get("src") == "Normal" and dsym(n["e"]) == ("var", "player"):
@@ -433,7 +442,7 @@ def g4(ctx, F, D):
                             sq.add((hir.sym_int(t[1]), hir.sym_int(t[2])))
                 kinds = piece_types_compared(a["body"], dsym)
                 rets = [r for r, _ in hir.walk(a["body"]) if r.get("k") == "Ret"]
-                enemy = all(any("piece.owner != player" in hir.fmt(x[1], 200) for x in (hir.guards_of(r, a["body"], dsym) or []) if x[0] == "if") for r in rets)
+                enemy = all(any("piece.owner != player" in fmtn(x[1], 200) for x in (hir.guards_of(r, a["body"], dsym) or []) if x[0] == "if") for r in rets)
                 looked[who] = (sq, kinds, enemy, len(rets))
     capt = {"White": {(1, 1), (1, -1)}, "Black": {(-1, 1), (-1, -1)}}
     for who, other in (("White", "Black"), ("Black", "White")):
@@ -527,12 +536,12 @@ def g6(ctx, F, D):
     fn = F.fn(FILTER)
     body = fn["hir"]["body"]
     env = hir.Env(fn["hir"], F)
-    sym = hir.Sym(env, F)
+    sym = hir.Sym(env, F, depth=30)
     # names captured before the loop
     lets = {}
     for n, anc in hir.walk(body):
         if n.get("k") == "SLet" and n["pat"].get("k") == "PBind" and n.get("init") is not None:
-            lets[n["pat"]["name"]] = (hir.fmt(sym(n["init"]), 200), sum(1 for a in anc if a.get("k") == "Loop"))
+            lets[n["pat"]["name"]] = (fmtn(sym(n["init"]), 200), sum(1 for a in anc if a.get("k") == "Loop"))
     player = [k for k, v in lets.items() if v == ("self.current_player", 0)]
     pl = player[0] if player else "?"
     kp = [k for k, v in lets.items() if v == ("Game::get_king_position(self, %s)" % pl, 0)]
@@ -548,7 +557,7 @@ def g6(ctx, F, D):
     found = None
     if ok:
         g = [x for x in (hir.guards_of(conts[0], body, sym) or []) if x[0] == "if"]
-        t = [(hir.fmt(hir.canon(x[1]), 300), x[2]) for x in g]
+        t = [(fmtn(hir.canon(x[1]), 300), x[2]) for x in g]
         found = t
         mvv = None
         for x in g:
@@ -587,9 +596,9 @@ def g6(ctx, F, D):
                 kinds.append("push")
             elif any(x is pop[0] for x, _ in hir.walk(st)):
                 kinds.append("pop")
-            elif s0.get("k") == "SLet" and s0.get("init") is not None and "is_targeted" in hir.fmt(sym(s0["init"]), 200):
+            elif s0.get("k") == "SLet" and s0.get("init") is not None and "is_targeted" in fmtn(sym(s0["init"]), 200):
                 kinds.append("test")
-                test = hir.fmt(sym(s0["init"]), 200)
+                test = fmtn(sym(s0["init"]), 200)
                 cond_name = s0["pat"].get("name")
         order = [k for k in kinds if k in ("push", "test", "pop")]
         same_move = sym(push[0]["args"][0]) == sym(pop[0]["args"][0])
@@ -606,8 +615,8 @@ def g6(ctx, F, D):
         if n.get("k") == "Assign":
             l = hir.strip(n["l"])
             if l.get("k") == "Index" and hir.strip(l["e"]).get("to", {}).get("name") == "moves":
-                g = [(hir.fmt(x[1], 120), x[2]) for x in (hir.guards_of(n, body, sym) or []) if x[0] == "if"]
-                writes.append((hir.fmt(sym(l["i"]), 40), hir.fmt(sym(n["r"]), 60), g, n))
+                g = [(fmtn(x[1], 120), x[2]) for x in (hir.guards_of(n, body, sym) or []) if x[0] == "if"]
+                writes.append((fmtn(sym(l["i"]), 40), fmtn(sym(n["r"]), 60), g, n))
     keepv = writes[0][0] if writes else "?"
     ok = len(writes) == 2 and all(w[0] == keepv and w[1] in ("_move", "index(moves, index)") for w in writes)
     kept_if = [w for w in writes if (cond_name, True) in w[2]]
@@ -616,27 +625,27 @@ def g6(ctx, F, D):
               what="the filter may only copy an element of the list down to the keep index (shortcut) or when the verification succeeded",
               found=[(w[0], w[1], w[2][-2:]) for w in writes])
     tr = [n for n, _ in hir.walk(body) if n.get("k") == "MethodCall" and n["name"] == "truncate"]
-    ok = len(tr) == 1 and hir.fmt(sym(tr[0]["args"][0]), 40) == keepv
+    ok = len(tr) == 1 and fmtn(sym(tr[0]["args"][0]), 40) == keepv
     incs = [n for n, _ in hir.walk(body) if n.get("k") == "AssignOp" and n["op"] == "+=" and hir.strip(n["l"]).get("to", {}).get("name") == keepv
             and hir.strip(n["r"]).get("v") == 1]
     ctx.check("C01.G8", "filter:truncates-to-the-kept-prefix", ok and len(incs) == 2, fn=FILTER, file=fn["file"],
               what="the list must be truncated to exactly the kept moves (keep index advanced once per kept move)",
-              found={"truncate": [hir.fmt(sym(t["args"][0]), 40) for t in tr], "increments": len(incs)})
+              found={"truncate": [fmtn(sym(t["args"][0]), 40) for t in tr], "increments": len(incs)})
     # every own piece contributes, in both modes
     gens = [n for n, _ in hir.walk(body) if n.get("k") == "MethodCall" and hir.callee_of(n) == GEN]
     ok = len(gens) == 1
     if ok:
         g = hir.guards_of(gens[0], body, sym) or []
         lb = loop_binders(g)
-        t = [(hir.fmt(hir.canon(x[1]), 200), x[2]) for x in plain_guards(g) if x[0] == "if"]
-        rng = [hir.fmt(l[0], 60) for l in lb]
+        t = [(fmtn(hir.canon(x[1]), 200), x[2]) for x in plain_guards(g) if x[0] == "if"]
+        rng = [fmtn(l[0], 60) for l in lb]
         ok = rng == ["ops::Range{end: 8, start: 0}", "ops::Range{end: 8, start: 0}"] and \
             ("(piece.owner == self.current_player)", True) in t and \
             any(x[0].startswith("let(v1::Some, Game::get_position(self, Position::new_assert(row, col))") or
                 x[0].startswith("let(v1::Some, Game::get_position(self, pos)") for x in t)
     ctx.check("C01.G6", "generation:every-own-piece-on-all-64-squares", ok, fn=FILTER, file=fn["file"],
               what="moves must be generated for every piece of the side to move on all 64 squares",
-              found=[(hir.fmt(x[1], 120), x[2]) for x in (hir.guards_of(gens[0], body, sym) or []) if x[0] == "if"] if gens else None)
+              found=[(fmtn(x[1], 120), x[2]) for x in (hir.guards_of(gens[0], body, sym) or []) if x[0] == "if"] if gens else None)
 
 
 def g9(ctx, F, D):
@@ -644,7 +653,7 @@ def g9(ctx, F, D):
     Game::get_moves appends every move it is given; the buffer is cleared first; no move without the mover's king."""
     fn = F.fn("chess::position::Position::add")
     env = hir.Env(fn["hir"], F)
-    sym = hir.Sym(env, F)
+    sym = hir.Sym(env, F, depth=30)
     body = fn["hir"]["body"]
     ctors = [n for n, _ in hir.walk(body) if n.get("k") == "Call" and n.get("ty") == "chess::position::Position"]
     ok = len(ctors) == 1
@@ -654,10 +663,10 @@ def g9(ctx, F, D):
         a0, a1 = hir.canon(sym(c["args"][0])), hir.canon(sym(c["args"][1]))
         want0 = hir.canon(("bin", "+", ("field", ("var", "self"), "0"), ("field", ("var", "delta"), "0")))
         want1 = hir.canon(("bin", "+", ("field", ("var", "self"), "1"), ("field", ("var", "delta"), "1")))
-        g = [(hir.fmt(x[1], 200), x[2]) for x in (hir.guards_of(c, body, sym) or []) if x[0] == "if"]
-        need = [("<Idx>::contains(ops::Range{end: 8, start: 0}, %s)" % hir.fmt(sym(c["args"][i]), 80), True) for i in (0, 1)]
+        g = [(fmtn(x[1], 200), x[2]) for x in (hir.guards_of(c, body, sym) or []) if x[0] == "if"]
+        need = [("<Idx>::contains(ops::Range{end: 8, start: 0}, %s)" % fmtn(sym(c["args"][i]), 80), True) for i in (0, 1)]
         ok = a0 == want0 and a1 == want1 and all(n in g for n in need) and len(g) == 2
-        found = {"square": (hir.fmt(a0, 60), hir.fmt(a1, 60)), "guards": g}
+        found = {"square": (fmtn(a0, 60), fmtn(a1, 60)), "guards": g}
     nones = [n for n, _ in hir.walk(body) if n.get("k") == "Path" and (n["to"].get("path") or "").endswith("::None")]
     ctx.check("C01.G9", "board-edges:Position::add", ok and len(nones) == 1, fn=fn["path"], file=fn["file"], line=fn["span"][0],
               what="stepping from a square must give (row+drow, col+dcol) exactly when both stay on the board, None otherwise "
@@ -687,13 +696,13 @@ def g9(ctx, F, D):
     first = hir.strip(sts[0]) if sts else {}
     cleared = first.get("k") == "MethodCall" and first["name"] == "clear" and hir.strip(first["recv"]).get("to", {}).get("name") == "moves"
     rets = [n for n, _ in hir.walk(gbody) if n.get("k") == "Ret"]
-    rg = [[(hir.fmt(x[1], 80), x[2]) for x in (hir.guards_of(r, gbody, gsym) or []) if x[0] == "if"] for r in rets]
+    rg = [[(fmtn(x[1], 80), x[2]) for x in (hir.guards_of(r, gbody, gsym) or []) if x[0] == "if"] for r in rets]
     ok = cleared and rg == [[("Game::king_exists(self, self.current_player)", False)]]
     ctx.check("C01.G9", "list-cleared-and-empty-only-without-own-king", ok, fn=FILTER, file=gm["file"],
               what="get_moves must start from an empty list and may return early (no moves) only when the mover has no king", found=rg)
     ke = F.fn("chess::Game::king_exists")
     nf = hir.summarize(ke, F) if True else None
     want = "<T>::is_some_and(Game::get_position(self, Game::get_king_position(self, player)), |piece| (piece.piece_type == PieceType::King))"
-    ctx.check("C01.G9", "king_exists", hir.fmt(nf, 300) == want, fn=ke["path"], file=ke["file"], line=ke["span"][0],
+    ctx.check("C01.G9", "king_exists", fmtn(nf, 300) == want, fn=ke["path"], file=ke["file"], line=ke["span"][0],
               what="king_exists(player) must say whether the cached king square of that player holds a king", expected=want,
-              found=hir.fmt(nf, 300))
+              found=fmtn(nf, 300))
